@@ -987,7 +987,31 @@ func nestCase(stream, flav string, tag int, m interface{}, body []byte, failing 
 	}
 }
 
+// declared lengths far beyond any buffer, up to the point where offset + length wraps around: rejected, in both modes,
+// without calling the nested decoder and without a panic
+func streamNestedHugeLengths(r *hx.Rng) {
+	lens := []uint64{1 << 31, 1<<31 - 1, 1 << 32, 1 << 40, 1<<62 + 5, 1<<63 - 1, 1<<63 - 2, 1<<63 - 3, 1<<63 - 4, 1<<63 - 8, 1<<63 - 12, 1<<63 - 16, 1 << 63, 1<<64 - 1, 1<<64 - 2, 1<<64 - 9}
+	for _, l := range lens {
+		for _, pad := range []int{0, 1, 5, 11} {
+			buf := protowire.AppendVarint(protowire.AppendTag(r.Bytes(0), protowire.Number(randTag(r)), protowire.BytesType), l)
+			buf = append(buf, r.Bytes(pad)...)
+			for _, fast := range []bool{false, true} {
+				line, impl, _ := runDec(fast, buf, 0, []dop{{typ: 'T'}, {typ: 'N', nestedOK: true}}, func(d dop, ob decObs, dec *csproto.Decoder) {
+					if d.typ == 'N' {
+						sink.OracleN++
+						if ob.class != "err" || ob.nested.calls != 0 || ob.after > len(buf) {
+							fail("oracle", "declared length beyond the buffer not rejected before calling the nested decoder", fmt.Sprintf("%s fast=%v", hx.B(buf), fast), "err, 0 calls", fmt.Sprintf("%s, %d calls, offset %d", ob.class, ob.nested.calls, ob.after), "nest-dec-overrun")
+						}
+					}
+				})
+				sink.Add("nested-overrun", line, impl, true)
+			}
+		}
+	}
+}
+
 func streamNested(r *hx.Rng) {
+	streamNestedHugeLengths(r.Fork("huge"))
 	bodies := [][]byte{{}, {0x08, 0x01}, r.Bytes(5), r.Bytes(127), r.Bytes(128), r.Bytes(300)}
 	for i := 0; i < 20; i++ {
 		bodies = append(bodies, randValidMessage(r, 1+r.Intn(4)))
@@ -1021,9 +1045,11 @@ func main() {
 		streamPacked(r.Fork("packed"), false, true)
 		streamMisc(r.Fork("misc"))
 	case "C02":
-		streamScalars(r.Fork("scalars"), true, false)
-		streamBytes(r.Fork("bytes"), true, false)
-		streamPacked(r.Fork("packed"), true, false)
+		// (every canonical encoding is also decoded back, in both modes: conformance is about reading what conforming
+		// writers emit as much as about writing it)
+		streamScalars(r.Fork("scalars"), true, true)
+		streamBytes(r.Fork("bytes"), true, true)
+		streamPacked(r.Fork("packed"), true, true)
 		streamRefDecode(r.Fork("refdec"))
 		streamSkip(r.Fork("skip"))
 	case "C03":
